@@ -45,7 +45,19 @@
      - v10 re-reads the block commitments BY NUMBER when it handles a head: after the block was
        reverted the subscription ends silently (or mixes the header with the commitments of the
        block that replaced it);
-     - the transaction status is not looked at again after a reorg notice.                      *)
+     - the transaction status is not looked at again after a reorg notice;
+     - (A2, excluded from the model by WinEnv, shown on the code by the probe) a revert between
+       the height read and the event filter's read makes the catch-up range of an events
+       subscription reach into the pre-confirmed chain.
+   v8 differs where it matters: its heads catch-up walks headers (the start header is the one the
+   request resolved; the loop ends on EQUALITY with the latest number read at subscribe time, so a
+   start above that number runs to the end of the chain and then ends the subscription), and its
+   event subscription ignores the head it receives and re-reads nextBlock..head.Number from the
+   database (EventsCaughtUpV8: nothing is lost for good whatever the lag).
+   A repair of the lossy-feed consequences is NOT modelled (it is a redesign: register on the
+   feeds before reading the height, treat a head as a wake-up and re-read next..height from the
+   database checking the parent link against the last delivered header, let a newer reorg notice
+   MERGE with the one waiting in the slot instead of overwriting it).                            *)
 EXTENDS Integers, Sequences, FiniteSets, TLC
 
 CONSTANTS
